@@ -404,13 +404,13 @@ def load_data(file_name, **kwargs):
     if "allow_pickle" not in kwargs:
         kwargs["allow_pickle"] = True
     data = np.load(file_name, **kwargs)
-    try:
-        return data["arr_0"].item()
-    except IndexError:
-        try:
-            return data.item()
-        except ValueError:
-            return data
+    if not isinstance(data, np.ndarray):  # npz file from save_dataz
+        data = data["arr_0"]
+    # np.save wraps a dict in a 0-d object array; an array with one element
+    # (one event, a list with one entry) is data and stays as it is
+    if data.ndim == 0:
+        return data.item()
+    return data
 
 
 def _data_split(dat, batch_size, axis=0):
